@@ -47,12 +47,16 @@ Qed.
 
 Theorem contract_spec M name :
   (forall M', contract M name = Ok M' ->
-     exists ns, ns_index (ms_ns M) name = Some ns /\ contract_rel M ns M') /\
-  (contract M name = Err <-> ns_index (ms_ns M) name = None).
+     exists ns, ns_index (ms_ns M) name = Some ns /\ ns <> O /\ contract_rel M ns M') /\
+  (contract M name = Err <-> ns_index (ms_ns M) name = None \/ ns_index (ms_ns M) name = Some O).
 Proof.
-  unfold contract. destruct (ns_index (ms_ns M) name) as [ns|].
-  - split; [|split; discriminate]. intros M' [= <-]. exists ns. split; [reflexivity|apply contract_idx_spec].
-  - split; [discriminate|split; reflexivity].
+  unfold contract. destruct (ns_index (ms_ns M) name) as [[|ns]|].
+  - split; [discriminate|]. split; auto.
+  - split.
+    + intros M' Heq. apply Ok_inj in Heq. subst M'. exists (S ns).
+      split; [reflexivity|]. split; [discriminate|apply contract_idx_spec].
+    + split; [discriminate|]. intros [H|H]; discriminate.
+  - split; [discriminate|]. split; auto.
 Qed.
 
 (* ------------------------------------------------------------------ *)
@@ -151,12 +155,12 @@ Proof.
 Qed.
 
 Theorem contract_extend M name ns M' :
-  ns_index (ms_ns M) name = Some ns -> simple_names M ns = true ->
+  ns_index (ms_ns M) name = Some ns -> ns <> O -> simple_names M ns = true ->
   extend M name = Ok M' -> contract M' name = Ok M.
 Proof.
-  intros Hns Hs. unfold extend, contract. rewrite Hns. intros HE.
+  intros Hns Hn0 Hs. unfold extend, contract. rewrite Hns. intros HE.
   pose proof (extend_idx_spec _ _ _ HE) as [(HN & _) _]. rewrite HN, Hns.
-  rewrite (contract_extend_idx _ _ _ Hs HE). reflexivity.
+  rewrite (contract_extend_idx _ _ _ Hs HE). destruct ns; [congruence|reflexivity].
 Qed.
 
 (* ------------------------------------------------------------------ *)
@@ -172,4 +176,242 @@ Theorem map_name_err_iff cs ns src b :
   map_name (length src) cs ns src b = Err <-> Broken cs ns src.
 Proof.
   split; [apply map_name_err_sound; lia|]. intros H. apply map_name_err_complete. exact H.
+Qed.
+
+(* ------------------------------------------------------------------ *)
+(* closed form: the extended name is the `$`-joined list of the names (in ns) of all outer
+   classes, outermost first, followed by the class's own name — at any nesting depth *)
+
+Inductive Chain (cs : list class) (ns : nat) : str -> list str -> Prop :=
+| Chain_top src : split_inner src = None -> Chain cs ns src []
+| Chain_nested src p i pc mp ms :
+    split_inner src = Some (p, i) ->
+    find_class cs p = Some pc ->
+    nth_name (c_names pc) ns = Some mp ->
+    Chain cs ns p ms ->
+    Chain cs ns src (ms ++ [mp]).
+
+Fixpoint join_dollar (parts : list str) : str :=
+  match parts with
+  | [] => []
+  | x :: rest => match rest with [] => x | _ :: _ => x ++ cDOLLAR :: join_dollar rest end
+  end.
+
+Lemma join_dollar_snoc l b : l <> [] -> join_dollar (l ++ [b]) = join_inner (join_dollar l) b.
+Proof.
+  unfold join_inner. induction l as [|x l IH]; [congruence|]. intros _.
+  destruct l as [|y t].
+  - reflexivity.
+  - change ((x :: y :: t) ++ [b]) with (x :: ((y :: t) ++ [b])).
+    change (join_dollar (x :: (y :: t) ++ [b])) with (x ++ cDOLLAR :: join_dollar ((y :: t) ++ [b])).
+    rewrite IH by discriminate.
+    change (join_dollar (x :: y :: t)) with (x ++ cDOLLAR :: join_dollar (y :: t)).
+    rewrite <- app_assoc. reflexivity.
+Qed.
+
+Theorem Ext_chain cs ns src b r :
+  Ext cs ns src b r <-> exists ms, Chain cs ns src ms /\ r = join_dollar (ms ++ [b]).
+Proof.
+  split.
+  - induction 1 as [src b E|src b p i pc mp r E F G _ IH].
+    + exists []. split; [apply Chain_top; exact E|reflexivity].
+    + destruct IH as (ms & HC & ->). exists (ms ++ [mp]). split; [eapply Chain_nested; eauto|].
+      rewrite (join_dollar_snoc (ms ++ [mp]) b); [reflexivity|]. destruct ms; discriminate.
+  - intros (ms & HC & ->). revert b. induction HC as [src E|src p i pc mp ms E F G _ IH]; intros b.
+    + apply Ext_top. exact E.
+    + rewrite (join_dollar_snoc (ms ++ [mp]) b) by (destruct ms; discriminate).
+      eapply Ext_nested; eauto.
+Qed.
+
+(* ------------------------------------------------------------------ *)
+(* keys and well-formedness are preserved: the derived key (first-namespace name) of every
+   class is unchanged, so the model's "key = first name" reading stays valid after the calls *)
+
+Lemma first_name_nth l : first_name l = nth_name l O.
+Proof. destruct l as [|[x|] t]; reflexivity. Qed.
+
+Lemma forallb_nth {A} (f : A -> bool) l i d x :
+  forallb f l = true -> nth i l d = x -> (i < length l)%nat -> f x = true.
+Proof.
+  intros H E Hlt. rewrite forallb_forall in H. apply H. subst x. apply nth_In. exact Hlt.
+Qed.
+
+Definition cell_ok (o : option str) : bool := match o with Some [] => false | _ => true end.
+
+Lemma names_ok_unfold n l : names_ok n l = Nat.eqb (length l) n && forallb cell_ok l.
+Proof. reflexivity. Qed.
+
+Lemma Ext_nonempty cs ns src b r : Ext cs ns src b r -> b <> [] -> r <> [].
+Proof.
+  intros H Hb. destruct H; [exact Hb|]. unfold join_inner. destruct r; discriminate.
+Qed.
+
+Lemma extend_names_names_ok cs ns l l' n :
+  names_ok n l = true -> extend_names cs ns l = Ok l' ->
+  names_ok n l' = true /\ first_name l' = first_name l.
+Proof.
+  intros Hok HE. pose proof (extend_names_ok _ _ _ _ HE) as (Hns & _ & (Hlen & Hoth & Hcell)).
+  split.
+  - rewrite names_ok_unfold in *. rewrite andb_true_iff in *. destruct Hok as [H1 H2].
+    split; [rewrite Hlen; exact H1|].
+    revert HE. unfold extend_names. destruct ns as [|k]; [congruence|].
+    destruct l as [|h [|x t]]; try discriminate.
+    destruct (nth_name (h :: x :: t) (S k)) as [b|] eqn:G.
+    + destruct h as [src|]; [|discriminate].
+      destruct (map_name (length src) cs (S k) src b) as [r|] eqn:R; [|discriminate].
+      intros Heq. apply Ok_inj in Heq. subst l'.
+      apply forallb_set_nth; [exact H2|].
+      apply map_name_sound in R.
+      assert (Hb : cell_ok (Some b) = true).
+      { eapply forallb_nth; [exact H2|exact G|eapply nth_name_lt; eauto]. }
+      assert (Hr : r <> []).
+      { eapply Ext_nonempty; [exact R|]. destruct b; [discriminate|discriminate]. }
+      destruct r; [congruence|reflexivity].
+    + intros Heq. apply Ok_inj in Heq. subst l'. exact H2.
+  - rewrite !first_name_nth. apply Hoth. auto.
+Qed.
+
+Lemma extend_class_wf cs ns n c c' :
+  wf_class n c = true -> extend_class cs ns c = Ok c' ->
+  wf_class n c' = true /\ class_key c' = class_key c.
+Proof.
+  unfold extend_class. destruct (extend_names cs ns (c_names c)) as [l|] eqn:E; [|discriminate].
+  intros Hwf Heq. apply Ok_inj in Heq. subst c'.
+  unfold wf_class in Hwf. rewrite !andb_true_iff in Hwf. destruct Hwf as [[[[[H1 H2] H3] H4] H5] H6].
+  destruct (extend_names_names_ok _ _ _ _ _ H1 E) as [Hok Hfirst].
+  unfold wf_class, class_key in *. cbn [c_names c_doc c_fields c_methods].
+  rewrite Hok, Hfirst, H2, H3, H4, H5, H6. auto.
+Qed.
+
+Lemma extend_classes_wf cs ns n l l' :
+  Forall2 (fun c c' => extend_class cs ns c = Ok c') l l' ->
+  forallb (wf_class n) l = true ->
+  forallb (wf_class n) l' = true /\ map class_key l' = map class_key l.
+Proof.
+  induction 1 as [|c c' l l' Hc _ IH]; [auto|]. cbn [forallb map]. rewrite andb_true_iff.
+  intros [H1 H2]. destruct (extend_class_wf _ _ _ _ _ H1 Hc) as [Hw Hk].
+  destruct (IH H2) as [Hws Hks]. rewrite Hw, Hws, Hk, Hks. auto.
+Qed.
+
+Theorem extend_idx_wf M ns M' :
+  wf M = true -> extend_idx M ns = Ok M' ->
+  wf M' = true /\ map class_key (ms_classes M') = map class_key (ms_classes M).
+Proof.
+  unfold extend_idx. destruct (mapM (extend_class (ms_classes M) ns) (ms_classes M)) as [cs'|] eqn:E; [|discriminate].
+  intros Hwf Heq. apply Ok_inj in Heq. subst M'. apply mapM_ok in E.
+  unfold wf in *. cbn [ms_ns ms_doc ms_classes]. rewrite !andb_true_iff in Hwf.
+  destruct Hwf as [[[H1 H2] H3] H4].
+  destruct (extend_classes_wf _ _ _ _ _ E H3) as [Hw Hk].
+  rewrite H1, H2, Hw, Hk, H4. auto.
+Qed.
+
+Lemma innermost_nonempty b : b <> [] -> innermost b <> [].
+Proof.
+  intros Hb. destruct (innermost_spec b) as [(p & H)|[_ ->]]; [|exact Hb].
+  apply join_split in H as [_ (_ & Hi & _)]. exact Hi.
+Qed.
+
+Lemma contract_names_names_ok n k l :
+  names_ok n l = true ->
+  names_ok n (contract_names (S k) l) = true /\ first_name (contract_names (S k) l) = first_name l.
+Proof.
+  intros Hok. pose proof (contract_names_spec (S k) l) as (Hlen & Hoth & _). split.
+  - rewrite names_ok_unfold in *. rewrite andb_true_iff in *. destruct Hok as [H1 H2].
+    split; [rewrite Hlen; exact H1|]. unfold contract_names.
+    apply forallb_set_nth; [exact H2|].
+    destruct (nth_name l (S k)) as [b|] eqn:G; [|reflexivity].
+    assert (Hb : cell_ok (Some b) = true).
+    { eapply forallb_nth; [exact H2|exact G|eapply nth_name_lt; eauto]. }
+    assert (Hi : innermost b <> []) by (apply innermost_nonempty; destruct b; discriminate).
+    cbn [cell_ok]. destruct (innermost b); [congruence|reflexivity].
+  - rewrite !first_name_nth. apply Hoth. auto.
+Qed.
+
+Theorem contract_idx_wf M ns :
+  wf M = true -> ns <> O ->
+  wf (contract_idx M ns) = true /\
+  map class_key (ms_classes (contract_idx M ns)) = map class_key (ms_classes M).
+Proof.
+  intros Hwf Hns. destruct ns as [|k]; [congruence|].
+  unfold wf in *. unfold contract_idx. cbn [ms_ns ms_doc ms_classes]. rewrite !andb_true_iff in Hwf.
+  destruct Hwf as [[[H1 H2] H3] H4].
+  assert (H : forallb (wf_class (length (ms_ns M))) (map (contract_class (S k)) (ms_classes M)) = true /\
+              map class_key (map (contract_class (S k)) (ms_classes M)) = map class_key (ms_classes M)).
+  { clear H4. induction (ms_classes M) as [|c l IH]; [auto|]. cbn [forallb map] in *.
+    rewrite andb_true_iff in H3. destruct H3 as [Hc Hl]. destruct (IH Hl) as [IH1 IH2].
+    unfold wf_class in Hc. rewrite !andb_true_iff in Hc. destruct Hc as [[[[[C1 C2] C3] C4] C5] C6].
+    destruct (contract_names_names_ok _ k _ C1) as [Hok Hfirst].
+    unfold wf_class, class_key, contract_class in *. cbn [c_names c_doc c_fields c_methods].
+    rewrite Hok, Hfirst, C2, C3, C4, C5, C6, IH1, IH2. auto. }
+  destruct H as [Hw Hk]. rewrite H1, H2, Hw, Hk, H4. auto.
+Qed.
+
+(* ------------------------------------------------------------------ *)
+(* concrete values: the repository's fixture (class rows A, A$B, A$B$C, Outer, Outer$Inner with
+   one member each) extended by a chain of depth 4 *)
+
+Definition nA : str := [110; 65].   (* nA *)
+Definition nB : str := [110; 66].   (* nB *)
+Definition ex_field : field := mkField [76; 65; 59] [Some [117]; Some [102]] (Some [100; 111; 99]).
+Definition ex_meth : meth := mkMeth [40; 73; 41; 86] [Some [109]; Some [110]] None [mkParam 0 [None; Some [112]] (Some [100])].
+Definition row2 (a b : str) : names := [Some a; Some b].
+
+Definition ex_in : mappings := mkMappings [nA; nB] None
+  [ mkClass (row2 [65; 36; 66; 36; 67] [99]) (Some [100]) [] [];          (* A$B$C -> c, listed before its outer classes *)
+    mkClass (row2 [65] [97]) None [ex_field] [];                          (* A -> a *)
+    mkClass (row2 [65; 36; 66] [98]) None [] [ex_meth];                   (* A$B -> b *)
+    mkClass (row2 [79] [112; 47; 77; 79]) None [] [ex_meth];              (* O -> p/MO *)
+    mkClass (row2 [79; 36; 73] [77; 73]) None [ex_field] [];              (* O$I -> MI *)
+    mkClass (row2 [65; 36; 66; 36; 67; 36; 68] [100]) None [] [];         (* A$B$C$D -> d *)
+    mkClass (row2 [65; 36; 66; 36; 67; 36; 68; 36; 69] [101]) None [] []; (* A$B$C$D$E -> e *)
+    mkClass [Some [90; 36; 89]; None] None [] [] ].                       (* Z$Y, no name in nB, outer class absent *)
+
+Definition ex_out : mappings := mkMappings [nA; nB] None
+  [ mkClass (row2 [65; 36; 66; 36; 67] [97; 36; 98; 36; 99]) (Some [100]) [] [];
+    mkClass (row2 [65] [97]) None [ex_field] [];
+    mkClass (row2 [65; 36; 66] [97; 36; 98]) None [] [ex_meth];
+    mkClass (row2 [79] [112; 47; 77; 79]) None [] [ex_meth];
+    mkClass (row2 [79; 36; 73] [112; 47; 77; 79; 36; 77; 73]) None [ex_field] [];
+    mkClass (row2 [65; 36; 66; 36; 67; 36; 68] [97; 36; 98; 36; 99; 36; 100]) None [] [];
+    mkClass (row2 [65; 36; 66; 36; 67; 36; 68; 36; 69] [97; 36; 98; 36; 99; 36; 100; 36; 101]) None [] [];
+    mkClass [Some [90; 36; 89]; None] None [] [] ].
+
+(* A -> a, A$B -> p/b : the inner class's name carries a package *)
+Definition ex_pkg : mappings := mkMappings [nA; nB] None
+  [ mkClass (row2 [65] [97]) None [] []; mkClass (row2 [65; 36; 66] [112; 47; 98]) None [] [] ].
+(* A$B -> b without A;  A (unnamed in nB), A$B -> b *)
+Definition ex_missing : mappings := mkMappings [nA; nB] None [ mkClass (row2 [65; 36; 66] [98]) None [] [] ].
+Definition ex_unnamed : mappings := mkMappings [nA; nB] None
+  [ mkClass [Some [65]; None] None [] []; mkClass (row2 [65; 36; 66] [98]) None [] [] ].
+
+Definition examples : Prop :=
+  wf ex_in = true /\ simple_names ex_in 1 = true /\ ns_index (ms_ns ex_in) nB = Some 1%nat /\
+  extend ex_in nB = Ok ex_out /\ contract ex_out nB = Ok ex_in /\ ex_out <> ex_in /\
+  Chain (ms_classes ex_in) 1 [65; 36; 66; 36; 67; 36; 68; 36; 69] [[97]; [98]; [99]; [100]] /\
+  extend ex_in nA = Err /\ contract ex_in nA = Err /\
+  extend ex_missing nB = Err /\ Broken (ms_classes ex_missing) 1 [65; 36; 66] /\
+  extend ex_unnamed nB = Err /\ Broken (ms_classes ex_unnamed) 1 [65; 36; 66] /\
+  (* the hypothesis of contract_extend is needed *)
+  wf ex_pkg = true /\ simple_names ex_pkg 1 = false /\
+  exists M', extend ex_pkg nB = Ok M' /\ contract M' nB <> Ok ex_pkg.
+
+Theorem examples_hold : examples.
+Proof.
+  unfold examples.
+  split; [vm_compute; reflexivity|]. split; [vm_compute; reflexivity|]. split; [vm_compute; reflexivity|].
+  split; [vm_compute; reflexivity|]. split; [vm_compute; reflexivity|]. split; [vm_compute; discriminate|].
+  split.
+  { change [[97]; [98]; [99]; [100]] with (((([] ++ [[97]]) ++ [[98]]) ++ [[99]]) ++ [[100]]).
+    eapply Chain_nested; [vm_compute; reflexivity|vm_compute; reflexivity|vm_compute; reflexivity|].
+    eapply Chain_nested; [vm_compute; reflexivity|vm_compute; reflexivity|vm_compute; reflexivity|].
+    eapply Chain_nested; [vm_compute; reflexivity|vm_compute; reflexivity|vm_compute; reflexivity|].
+    eapply Chain_nested; [vm_compute; reflexivity|vm_compute; reflexivity|vm_compute; reflexivity|].
+    apply Chain_top. vm_compute. reflexivity. }
+  split; [vm_compute; reflexivity|]. split; [vm_compute; reflexivity|].
+  split; [vm_compute; reflexivity|].
+  split; [apply (map_name_err_iff (ms_classes ex_missing) 1 [65; 36; 66] []); vm_compute; reflexivity|].
+  split; [vm_compute; reflexivity|].
+  split; [apply (map_name_err_iff (ms_classes ex_unnamed) 1 [65; 36; 66] []); vm_compute; reflexivity|].
+  split; [vm_compute; reflexivity|]. split; [vm_compute; reflexivity|].
+  eexists. split; [vm_compute; reflexivity|]. vm_compute. discriminate.
 Qed.
